@@ -112,6 +112,19 @@ check("C23", "exploration", "bounded-exhaustive history exploration, each histor
       "Every op sequence of <= 2 (quick) / <= 3 (thorough) steps over {put t, put T, put b, put e, update, delete, commit, close+open} with explicit timestamps is executed twice in two different worker processes, in the default build and in the build without the lexical index. The logical observations (frames, contents, timeline, search and vector answers) must be identical; the files must be byte-identical, and where they are not the differing regions are named from the header/TOC region map and form the violation signature, so that only the recorded region sets (Tantivy segment bytes and what is derived from them; the tombstone stamp in the WAL) are known findings and a difference anywhere else is a violation.",
       "Byte identity in the default build is decided only outside the regions produced by Tantivy (recorded finding).", "DESIGN.md §3 C23", "hist")
 
+check("C02", "fault_enumeration", "exhaustive crash-point enumeration over a recorded syscall stream, replayed against the real open",
+      "Histories (8 representative ones quick; every applicable op sequence of <= 3 ops over {put, chunked put, update, delete, commit, ticket, vacuum, leaked handle + recovery} plus 4 fixed longer ones thorough) run once in a child under an LD_PRELOAD recorder that logs every open/write/pwrite/ftruncate/fsync/rename/link/unlink on the memory's directory with its data. The log is replayed in memory; every prefix of the mutation stream and every op boundary is a crash state (process-crash model), deduplicated by directory content; each distinct state is materialised and opened with the real Memvid::open, which must succeed and show exactly the operations acknowledged before that point, optionally the in-flight one, with identical content.",
+      "Recorder self-check: replaying the full log must reproduce the directory the child left (names and sha256), otherwise the run is a machinery failure. A crash before create has returned is outside the property (no memory exists yet). copy_file_range/sendfile are forced to fail so that std falls back to write().", "DESIGN.md §2.2, §3 C02", "crash")
+check("C03", "fault_enumeration", "exhaustive crash-point x lost/torn-write enumeration over a recorded syscall stream",
+      "The recorded streams of 4 (quick) / all <= 3-op (thorough) histories; at every prefix: every subset of the data writes not yet fsynced on their inode is dropped (all subsets up to 6 unsynced writes; otherwise none / each of the last four / tails / all, reported as capped), the last unsynced write is torn at 512 and 4096 bytes, and a suffix of the directory operations since the last directory fsync is lost; each distinct state must open and show every put and commit whose call had returned.",
+      "Same recorder and self-check as C02. Reordering below the syscall level (within one write) is modelled only by the two tear points.", "DESIGN.md §2.2, §3 C03", "crash")
+check("C04", "fault_enumeration", "nested crash-point enumeration over recorded recoveries",
+      "For histories that leave pending records, every state a completed call leaves behind is opened once uninterrupted under the recorder (this is the recovery); every prefix of that recovery's mutation stream is a nested crash state, iterated to nesting depth 2 (quick) / 3 (thorough) with content deduplication and a cap on the number of nested states (reported); each nested state must open and show the same frames as the uninterrupted recovery.",
+      "Nested enumeration is capped (120 states quick, 1500 thorough per history); the cap is reported and the run is then not marked exhaustive.", "DESIGN.md §2.2, §3 C04", "crash")
+check("C17", "model_checking", "explicit-state exploration of the lock protocol on the real code, second writer on separate descriptors and in a second process",
+      "Writer A (a real Memvid handle) takes every sequence of <= 3 (quick) / <= 4 (thorough) steps over {put, commit, put+commit, vacuum, ticket, enable_vec, close+open, doctor, commit_skip_indexes+finalize}; after create and after every step writer B probes the exclusive lock on its own open file description (all interleavings of B's probe with A's steps). Invariant: while A is alive B cannot acquire; after A is dropped B can. On a violation the trace is extended to its consequence with a real second process that opens, puts and commits while A does the same, and the frames are counted after reopen.",
+      "flock conflicts are per open file description, so a second descriptor in the same process is equivalent to a second process for the lock; the consequence run uses a real process. The TLA+-model formulation of the quantifier is replaced by exploring the implementation itself.", "DESIGN.md §3 C17", "lockmc")
+
 NOT_APPLICABLE = {}
 
 def main():
@@ -157,6 +170,10 @@ def main():
              "kind_free_text": "level-wise exhaustive enumeration of op histories; each history runs on a real Memvid in a worker subprocess and is compared with a reference model"},
             {"name": "corpus", "path": "harness/src/corpus.rs, q_*.rs", "serves_properties": [p for p, c in CHECKS.items() if c["engine"] == "corpus"],
              "kind_free_text": "a worker builds each enumerated corpus with the real API and answers every enumerated request at each stage; the parent evaluates the oracle"},
+            {"name": "crash", "path": "harness/src/x_crash.rs, harness/shim/recorder.c", "serves_properties": ["C02", "C03", "C04"],
+             "kind_free_text": "LD_PRELOAD syscall recorder + in-memory replay to every crash / power-loss / nested-recovery state; each distinct state opened with the real code"},
+            {"name": "lockmc", "path": "harness/src/s_lock.rs", "serves_properties": ["C17"],
+             "kind_free_text": "explicit-state exploration of writer steps x second-writer probes on the real lock code"},
             {"name": "walmc", "path": "harness/src/s_wal.rs", "serves_properties": ["C05"],
              "kind_free_text": "explicit-state BFS over the real EmbeddedWal with exact state dedup; states reached by history re-execution"},
         ],
